@@ -1,15 +1,15 @@
 SPECIFICATION Spec
 CONSTANTS
   Routers = {"P", "L"}
-  Ops = {"Authorize", "Login", "Callback", "CodeExchange", "EndSession"}
+  Ops = {"TokenExchange", "Expire"}
   MaxReq = 1
   MaxCode = 1
-  MaxAT = 1
+  MaxAT = 4
   MaxDev = 0
   MaxSteps = 99
-  Seeded = FALSE
-  Vary = {"post", "refresh"}
-  Narrow = FALSE
+  Seeded = TRUE
+  Vary = {"policy"}
+  Narrow = TRUE
 INVARIANT NoViolation
 VIEW View
 CHECK_DEADLOCK FALSE
